@@ -116,11 +116,13 @@ def items(tier: str) -> List[Any]:  # pylint: disable=too-many-branches
     # three transactions
     trip = [("abs0_rekey", "approve", "rel-1_rekey"), ("rel+1_rekey", "approve", "approve"), ("rel+2_rekey", "approve", "approve"),
             ("abs1_fee", "own_fee", "approve"), ("own_rekey", "abs0_rekey", "approve")]
+    trip += [("rel+2_rekey", "own_rekey", "approve"), ("rel+1_rekey", "approve", "rel-1_rekey"), ("approve", "rel+1_rekey", "approve")]
     if not quick:
         trip += [("rel+1_fee", "approve", "rel-1_rekey"), ("idx0_abs0_rekey", "abs0_rekey", "approve")]
     for c1, c2, c3 in trip:
         for absx in ((None, None, None), (0, 1, 2), (2, 1, 0), (0, None, None)):
-            for r in (None, [("T1", "T2", 1), ("T2", "T3", 1)], [("T1", "T3", 2)], [("T3", "T2", -1)]):
+            for r in (None, [("T1", "T2", 1), ("T2", "T3", 1)], [("T1", "T3", 2)], [("T3", "T2", -1)], [("T1", "T3", 2), ("T2", "T3", 1)],
+                      [("T2", "T3", 1), ("T1", "T3", 2)], [("T1", "T2", 1), ("T3", "T2", -1)]):
                 ts = [txn("T1", "txn", lsig=c1, abs_index=absx[0]), txn("T2", "txn", lsig=c2, abs_index=absx[1]),
                       txn("T3", "txn", lsig=c3, abs_index=absx[2])]
                 ok = True
